@@ -196,6 +196,18 @@ def rule_cases(lo, hi, maxlen):
                                    'tokens': as_tokens, 'via': 'brackets'}
 
 
+def wide_rule_cases(lo, hi):
+    """Size probes beyond the bound: the listed child among 5, 6 and 9 children (first, middle, last)."""
+    for preset, parent, child, listed in rule_items()[lo:hi]:
+        for L in (5, 6, 9):
+            for pos in sorted(set((0, L // 2, L - 1))):
+                for as_tokens in (True, False):
+                    labs = [['zzz', 'qqq'][i % 2].upper() for i in range(L)]
+                    labs[pos] = child.upper()
+                    yield {'preset': preset, 'parent': parent.upper() if parent != '-' else parent, 'children': labs,
+                           'pos': pos, 'tokens': as_tokens}
+
+
 def anyparent_cases(maxlen):
     """Every parent category of both pinned tables (incl. those with an empty priority list) and an unknown
     one, over children none of which is listed: the rule does not say which child is the head, but exactly
@@ -313,7 +325,7 @@ def run_chunk(chunk):
                 res.sample({'negra_mark_heads_on': model.mt_str(mt.root, mt.toks)})
         elif chunk['kind'] == 'rules':
             c = None
-            for c in rule_cases(chunk['lo'], chunk['hi'], chunk['maxlen']):
+            for c in itertools.chain(rule_cases(chunk['lo'], chunk['hi'], chunk['maxlen']), wide_rule_cases(chunk['lo'], chunk['hi'])):
                 vs = check_rule(c)
                 res.evals += 1
                 res.nontrivial += 1 if c['pos'] != 0 else 0
